@@ -105,7 +105,8 @@ func runC13Stall(nch, victim, n1, n2, n3, incoming int, mode string) error {
 		closeNode(n, bound) //nolint:errcheck
 		rec.WaitClosed(bound)
 	}()
-	if _, ok := openCustom(n, rec, pipes); !ok {
+	stallChans, ok := openCustom(n, rec, pipes)
+	if !ok {
 		return fmt.Errorf("BROKEN: channels did not open")
 	}
 	counter := 0
@@ -212,14 +213,31 @@ func runC13Stall(nch, victim, n1, n2, n3, incoming int, mode string) error {
 	}
 	// phase 3: unblock, let the backlog drain, then write more with flow control
 	pipes[victim].UnblockWrites()
-	prev := -1
-	for k := 0; k < 400; k++ {
-		cur := pipes[victim].NumWrites()
-		if cur == prev && k > 3 {
-			break
+	// the backlog has drained exactly when a marker queued behind it is on the wire (first-in first-out); a
+	// marker is dropped like anything else while the queue is still full, so it is repeated until one arrives.
+	// (A write counter that stands still for a few milliseconds says nothing on a busy machine.)
+	drained := false
+	for try := 0; try < 80 && !drained; try++ {
+		if err := n.WriteMessageTo(stallChans[victim], &common.MessageSystemTime{TimeUnixUsec: uint64(try) + 1}); err != nil {
+			return fmt.Errorf("BROKEN: marker write: %v", err)
 		}
-		prev = cur
-		time.Sleep(3 * time.Millisecond)
+		until := time.Now().Add(250 * time.Millisecond)
+		for !drained && time.Now().Before(until) {
+			ws := pipes[victim].Writes()
+			for k := len(ws) - 1; k >= n1 && !drained; k-- {
+				if f, _, err := ref.Parse(ws[k]); err == nil && f.ID == 2 {
+					if v, derr := lay(2).Decode(f.Payload, f.V2); derr == nil {
+						drained = v.(*common.MessageSystemTime).TimeUnixUsec == uint64(try)+1
+					}
+				}
+			}
+			if !drained {
+				time.Sleep(time.Millisecond)
+			}
+		}
+	}
+	if !drained {
+		return fmt.Errorf("channel %d: after its transport accepted writes again nothing written to it reached the wire for %v", victim, 80*250*time.Millisecond)
 	}
 	late := pipes[victim].NumWrites() - n1
 	base3 := counter
